@@ -120,8 +120,11 @@ class LayeredRayTracing2D(_AbstractDistribution):
         ) / (self.data_sigma**2)
 
     def _dmisfitdsyn(self, tts_obs, tts_syn):
-        return (tts_syn - tts_obs - _numpy.nanmean(tts_syn - tts_obs)) / (
-            self.data_sigma**2
+        # Derivative of _misfit, which is a sum of squares without a factor 1/2
+        return (
+            2.0
+            * (tts_syn - tts_obs - _numpy.nanmean(tts_syn - tts_obs))
+            / (self.data_sigma**2)
         )
 
     def distance_per_layer(self, velocities):
